@@ -28,7 +28,7 @@ CLAIMS = {
          'The 51 polysmallmod primitives these operations call are proved exact (unit c06_polymod*). '
          'Multiplication: bgv_multiply / ckks_multiply / multiply_inplace / multiply / multiply_new produce, in every RNS word, the ciphertext convolution sum_{a+b=i} c1[a](.)c2[b] mod q_j accumulated in index order (with a lemma that the index pairs visited are exactly those with a+b=i inside both operands), '
          'the BGV correction factor is the product mod t, operands on different levels or in coefficient form are refused (unit c02_mul); for BFV the lifting of both operands to base q and Bsk in NTT form (BEHZ steps 1-3) is checked as fragments with abstract RNS tools (unit c02_bfvmul). '
-         'Not covered: BEHZ steps 4-8 of bfv_multiply, squaring (unsafe aliasing), relinearisation / key switching, plaintext-operand variants, that word-level results decrypt to the ring operation (needs NTT/CRT theory and noise analysis).', '5 C02'),
+         'Relinearisation shares the mod-down fragments of key switching (unit c04_kswitch). Not covered: BEHZ steps 4-8 of bfv_multiply, squaring (unsafe aliasing), the accumulation half of key switching, plaintext-operand variants, that word-level results decrypt to the ring operation (needs NTT/CRT theory and noise analysis).', '5 C02'),
  'C03': ('The scale-bookkeeping half of the property, as contracts on the evaluator code (floats are opaque: WHICH float operation is applied to WHICH operands is what is proved, not its value): '
          'ckks_multiply records exactly scale(a)*scale(b) and refuses (no normal return) when Evaluator::is_scale_within_bounds fails; is_scale_within_bounds compares floor(log2(scale)) with the total coefficient-modulus bit count of the level for CKKS and the plain-modulus bit count for BFV/BGV; '
          'rescale_to_next / rescale_to divide the scale by each dropped prime, in chain order, and mod_switch leaves it unchanged (unit c05_switch); add / sub refuse operands whose scales are not close and operands on different levels (unit c02_translate); '
@@ -37,7 +37,11 @@ CLAIMS = {
  'C04': ('GaloisTool::apply is proved to be the substitution X -> X^g on a zero-padded coefficient vector for every N = 2^k (k <= 17) and every odd g < 2N: result[(i*g) mod N] = (-1)^floor(i*g/N) * operand[i] mod q, '
          'with the number-theoretic lemma that i -> i*g mod N is injective for odd g (so every output word is written exactly once); get_elt_from_step returns 3^s mod 2N (3^(N/2-|s|) for right rotations, 2N-1 for step 0) and refuses |s| >= N/2; '
          'get_index_from_elt; Evaluator::apply_galois_plain* (three forms) apply the map to a plaintext of any stored length and refuse invalid plaintexts and even elements. '
-         'Not covered: the NTT-domain permutation tables, apply_galois_inplace on ciphertexts and key switching (switch_key_inplace_internal), NAF-composed rotations, conjugation.', '5 C04'),
+         'Key switching: the mod-down half of Evaluator::switch_key_inplace_internal (division of each accumulated key component by the special prime and addition into the ciphertext) is verified as two fragments (BFV/CKKS and BGV branch) with the transforms abstract: '
+         'for every level below the key level, every component and coefficient, the special-prime component is brought back with the table of the SPECIAL prime (last key prime), rounded with q_k/2 (resp. kept modulo t with q_k^-1 mod t in BGV), reduced to prime j, transformed with table j, '
+         'subtracted, multiplied by q_k^-1 mod q_j and added to word (i, j, c) of the ciphertext; GaloisTool::new accepts exactly 2^1..2^17. '
+         'ASSUMED: disjointness of the unsafe alias t_last from the regions written (stated in the unit). '
+         'Not covered: the first half of switch_key_inplace_internal (decomposition, lazy 128-bit accumulation over the key: iterator closures), the NTT-domain permutation tables, apply_galois_inplace on ciphertexts, NAF-composed rotations (rotate_internal), conjugation.', '5 C04'),
  'C05': ('Every API form of mod_switch_to_next / mod_switch_to / rescale_to_next / rescale_to and the NTT-plaintext variants is verified against a ghost model of the modulus chain: '
          'the loops terminate (decreases on the level index), the result is exactly on the requested level, upward moves / past-the-last-level / rescale outside CKKS / wrong representation / invalid operands are refused '
          '(postconditions on normal return), plain switching leaves the scale unchanged, rescaling divides it by each dropped prime in order, the BGV correction factor is multiplied by q_last^-1 mod t, '
